@@ -142,7 +142,7 @@ impl Check for Refactor {
     fn rule(&self) -> String {
         match self.prop {
             "C09" => "case = one generated (formatted) library served by the real LSP loop; for every note and every line: codeAction, and for each offered extract-section / extract-sub-sections / inline-section / inline-quote: codeAction/resolve, edit applied to a copy of the library by the harness's own WorkspaceEdit model (rejects create-on-existing etc.); oracles: fresh key, conservation of the block multiset (+1 reference per extracted section, -1 reference and deleted note per inline), extracted note = the subtree with promoted headings and nothing else (no front matter of the source), front matter of existing notes kept, remaining blocks keep order, links resolve to the same notes from the new location, result is a formatting fixpoint, extract(first sub-section) then inline == original bytes; H4 forces the first key candidates to collide with existing notes; distinct = (action kind, container chain of the target, section depth) combinations".into(),
-            _ => "case = as C09 for section-to-list, list-to-sections, change-list-type: block word-runs conserved in order, blocks outside the target untouched, result is a formatting fixpoint, change-type twice == original bytes, section-to-list then list-to-sections == original bytes; distinct = (action kind, target container chain, list kind) combinations".into(),
+            _ => "case = as C09 for section-to-list, list-to-sections, change-list-type: block word-runs conserved in order, blocks outside the target untouched, change-list-type flips the kind of the targeted item's own (innermost) list and of no other container, result is a formatting fixpoint, change-type twice == original bytes, section-to-list then list-to-sections == original bytes; distinct = (action kind, target container chain, list kind) combinations".into(),
         }
     }
     fn assumptions(&self) -> Vec<String> {
@@ -507,6 +507,35 @@ fn judge_c10(
                 let which = if !head_ok { "before" } else { "after" };
                 let i = if !head_ok { (0..i0).find(|&i| ad.get(i) != bd.get(i)).unwrap_or(0) } else { (0..tail).find(|&i| ad.get(ad.len().wrapping_sub(tail) + i) != bd.get(i1 + i)).map(|i| i1 + i).unwrap_or(i1) };
                 v.push(("rewrote-outside-target".into(), format!("{}: a block {} the target changed: {:?}", kind, which, bd.get(i))));
+            }
+        }
+    }
+    // change-list-type rewrites the list the targeted item belongs to (the innermost one) and no other: every block of that
+    // list has the kind of exactly that container flipped, every other container of every block keeps its kind
+    if kind == "refactor.rewrite.list.type" {
+        let atoms = &_scan.atoms;
+        let covers = |a: &mdscan::Atom| a.line == _line || (a.line < _line && before[key][..a.range.end.min(before[key].len())].lines().count() > _line);
+        if let Some(t) = atoms.iter().find(|a| covers(a)) {
+            if let Some(d) = t.chain.iter().rposition(|c| matches!(c, mdscan::Cont::Item(..))) {
+                let in_list = |x: &mdscan::Atom| {
+                    x.chain.len() > d
+                        && x.chain[..d] == t.chain[..d]
+                        && matches!((&x.chain[d], &t.chain[d]), (mdscan::Cont::Item(o1, k1, _), mdscan::Cont::Item(o2, k2, _)) if o1 == o2 && k1 == k2)
+                };
+                let after_scan = mdscan::scan(&after[key]);
+                if after_scan.atoms.len() == atoms.len() && sigs(&before[key], key) == sigs(&after[key], key) {
+                    for (x, y) in atoms.iter().zip(after_scan.atoms.iter()) {
+                        let mut want: Vec<&'static str> = x.chain.iter().map(|c| c.kind()).collect();
+                        if in_list(x) {
+                            want[d] = if want[d] == "ol" { "ul" } else { "ol" };
+                        }
+                        let got: Vec<&'static str> = y.chain.iter().map(|c| c.kind()).collect();
+                        if want != got {
+                            v.push(("list-type-wrong-list".into(), format!("{}: block {:?} sits in {} afterwards, expected {} (only the list of the targeted item changes its type)", kind, x.text.chars().take(40).collect::<String>(), got.join("/"), want.join("/"))));
+                            break;
+                        }
+                    }
+                }
             }
         }
     }
